@@ -1623,6 +1623,15 @@ class EffectDomain(DefaultDomain):
                     return out
             types_ = {"str": str, "bytes": bytes, "int": int, "bool": bool, "float": float, "tuple": tuple, "list": tuple, "dict": dict}
             names_ = [dotted(t) for t in (call.args[1].elts if isinstance(call.args[1], ast.Tuple) else [call.args[1]])]
+            if all(names_) and any(st.has(fr.local(n_)) for n_ in names_ if n_):
+                # the types come from a variable (a row of a table of renderers ...): builtin types travel as ("builtin", name)
+                got_t = [r for r in interp.eval(call.args[1], st, fr) if r.kind == "val"]
+                tv = got_t[0].value if len(got_t) == 1 else None
+                cand_t = list(tv[1:]) if isinstance(tv, tuple) and tv[:1] == ("tuple",) else [tv]
+                if cand_t and all(isinstance(v, tuple) and v[:1] in (("builtin",), ("pytype",)) and isinstance(v[1], str) for v in cand_t):
+                    names_ = [v[1] for v in cand_t]
+                    if "object" in names_:
+                        return [r if r.kind == "exc" else val(TRUE, r.state) for r in interp.eval(call.args[0], st, fr)]
             if all(n_ in types_ for n_ in names_):
                 out = []
                 known = True
